@@ -77,6 +77,13 @@ def native_confirms(h, label, out):
     return out.kind == "checkfail"
 
 
+def _worker_init():
+    import faulthandler
+    import signal
+
+    faulthandler.register(signal.SIGUSR1, all_threads=True)
+
+
 def _worker(task):
     prop, hname, pidx, prefixes, max_paths, seconds = task
     h = next(x for x in api.HARNESSES[prop] if x.name == hname)
@@ -192,7 +199,7 @@ def run_property(prop, tier, seed, only=None, workers=None, verbose=False):
                                           steps_max=0)
     ctx = mp.get_context("fork")
     extra = getattr(mod, "extra_checks", None)
-    with cf.ProcessPoolExecutor(max_workers=workers, mp_context=ctx) as ex:
+    with cf.ProcessPoolExecutor(max_workers=workers, mp_context=ctx, initializer=_worker_init) as ex:
         running = set()
         dead = set()
         while pending or running:
